@@ -3,8 +3,13 @@ import Syzgy.Model.QueryDriver
 import Syzgy.Model.SearchDriver
 import Syzgy.Model.LshDriver
 import Syzgy.Model.Distance
+import Syzgy.Model.RestDriver
 
 open Syzgy
+
+structure AllState where
+  d : DState := {}
+  rest : Syzgy.Rest.Server := []
 
 def step (d : DState) (line : String) : DState × String :=
   let toks := (line.trimAscii.toString.splitOn " ").filter (· ≠ "")
@@ -24,13 +29,21 @@ def step (d : DState) (line : String) : DState × String :=
           | some out => (d, out)
           | none => (d, "bad-op")
 
-partial def loop (hin hout : IO.FS.Stream) (d : DState) : IO Unit := do
+def stepAll (a : AllState) (line : String) : AllState × String :=
+  let toks := (line.trimAscii.toString.splitOn " ").filter (· ≠ "")
+  match Syzgy.Rest.restStep a.rest toks with
+  | some (r, out) => ({ a with rest := r }, out)
+  | none =>
+    let (d', out) := step a.d line
+    ({ a with d := d' }, out)
+
+partial def loop (hin hout : IO.FS.Stream) (a : AllState) : IO Unit := do
   let line ← hin.getLine
   if line.isEmpty then return ()
-  let (d', out) := step d line
+  let (a', out) := stepAll a line
   hout.putStrLn out
   hout.flush
-  loop hin hout d'
+  loop hin hout a'
 
 def main : IO Unit := do
   loop (← IO.getStdin) (← IO.getStdout) {}
